@@ -108,7 +108,7 @@ impl From<Relation> for RelationAdapter {
 }
 
 /// Table instance id
-#[derive(Debug, Clone, Copy, PartialEq, Eq, Hash, Serialize)]
+#[derive(Debug, Clone, Copy, PartialEq, Eq, PartialOrd, Ord, Hash, Serialize)]
 pub struct RIId(usize);
 
 impl From<usize> for RIId {
